@@ -1,5 +1,6 @@
 import Okane.Lemmas.Diag
 import Okane.Lemmas.C14TextSpans
+import Okane.Lemmas.C14TextBook
 /-!
 # C14 — diagnostics name the right file and line
 
@@ -388,7 +389,8 @@ theorem C14_syntax_text (t : List Char) (e : Parse.ParseErr) (h : Parse.parseLed
     rw [utf8Len_append, length_encode]; omega
   have herr : utf8Len (pre ++ rest) - utf8Len pos = (encode (pre ++ rest)).length - (encode pos).length := by
     rw [length_encode, length_encode]
-  rw [hstart, herr] at a1 a2 a3
+  rw [hstart, herr] at a1 a3
+  rw [herr] at a2
   obtain ⟨pe', stopLine, b1, b2, b3, b4, b5, b6, b7, b8, b9, b10, b11⟩ :=
     C14_syntax (encode (pre ++ rest)) (encode pre).length ((encode (pre ++ rest)).length - (encode pos).length) a1 a2
   have hpe : pe' = pe := by rw [a3] at b1; injection b1 with b1; exact b1.symm
@@ -522,25 +524,119 @@ theorem C14_file_text {π : Type} (xs : List (Delivered π Entry)) (i : Nat) (x 
   rw [hc]
   exact ((Parse.parseLedgerRun_spans t).1 y hy).2.2
 
+/-- **C14_undeducible_text** — from the text to the annotated lines, nothing assumed about the parser or about which
+spans the error carries.  Let `parse_ledger::<Tracking>` accept the text `t` with entries `es`, and let book-keeping
+(`process`) reject entry `i` with `UndeduciblePostingAmount(a, b)`.  Then entry `i` is a transaction, `a < b` are
+indices of two of its postings `p`, `q`, and for the error carrying their tracked spans (`Tracked::new(i,
+posting.span())`) the report context of that entry exists, its `line_start` is the line of the entry's first byte, and
+the two annotations are exactly the slices of posting `a` and posting `b` inside the entry text; the line shown for each
+is the file's line of that posting's first byte. -/
+theorem C14_undeducible_text {π : Type} (path : π) (t : List Char) (es : List ParseSpans.ParsedT)
+    (hparse : ParseSpans.parseLedgerT t = .ok es) (i a b : Nat)
+    (hproc : Okane.process (es.map (·.entry.erase)) = .err (i, .undeducible a b)) :
+    ∃ x tt p q ctx,
+      es[i]? = some x ∧ x.entry = .txn tt ∧ a < b ∧ tt.posts[a]? = some p ∧ tt.posts[b]? = some q ∧
+      ErrorContext.new path (PCtx.mk (encode t) ⟨x.start, x.stop⟩) = .ok ctx ∧
+      computeLineNumber (encode t) x.start = .ok ctx.lineStart ∧
+      ctx.annotations (.undeducible (p.span.range (utf8Len t)) (q.span.range (utf8Len t))) =
+        .ok [⟨(p.span.range (utf8Len t)).start - x.start, (p.span.range (utf8Len t)).stop - x.start⟩,
+             ⟨(q.span.range (utf8Len t)).start - x.start, (q.span.range (utf8Len t)).stop - x.start⟩] ∧
+      (∀ r ∈ [p.span.range (utf8Len t), q.span.range (utf8Len t)],
+        x.start ≤ r.start ∧ r.start ≤ r.stop ∧ r.stop ≤ x.stop ∧
+        computeLineNumber (encode t) r.start = .ok (snippetLine ctx.lineStart ctx.text (r.start - x.start))) := by
+  -- the entries are the ones the run delivered
+  have hes : es = (ParseSpans.parseLedgerRunT t).1 := by
+    unfold ParseSpans.parseLedgerT at hparse
+    cases hr : ParseSpans.parseLedgerRunT t with
+    | mk es' en =>
+      rw [hr] at hparse
+      cases en <;> simp at hparse
+      exact hparse.symm
+  obtain ⟨_, hi, st', _, e, he, hstep⟩ := processFrom_err_index _ _ _ _ _ hproc
+  simp only [Nat.zero_add, List.length_map, Nat.sub_zero] at hi he
+  have hxi : es[i]? = some es[i] := List.getElem?_eq_getElem hi
+  have hmem : es[i] ∈ (ParseSpans.parseLedgerRunT t).1 := by rw [← hes]; exact List.getElem_mem hi
+  have hee : e = es[i].entry.erase := by
+    simp [List.getElem?_map, hxi] at he
+    exact he.symm
+  obtain ⟨t0, ht0, hab, hb⟩ := C14Book.stepEntry_err_U st' e a b hstep
+  obtain ⟨tt, htt, _, hlen⟩ := C14Book.delivered_txn t es[i] hmem t0 (by rw [← hee]; exact ht0)
+  have ha' : a < tt.posts.length := by omega
+  have hb' : b < tt.posts.length := by omega
+  have hpa : tt.posts[a]? = some tt.posts[a] := List.getElem?_eq_getElem ha'
+  have hpb : tt.posts[b]? = some tt.posts[b] := List.getElem?_eq_getElem hb'
+  have hfrom : ParseSpans.SpansFrom (utf8Len t) tt
+      (.undeducible (tt.posts[a].span.range (utf8Len t)) (tt.posts[b].span.range (utf8Len t))) :=
+    .undeducible a b _ _ hpa hpb
+  have he' : ∀ r ∈ (BkSpans.undeducible (tt.posts[a].span.range (utf8Len t)) (tt.posts[b].span.range (utf8Len t))).tracked,
+      ∃ s ∈ es[i].entry.spans, r = s.range (utf8Len t) := by rw [htt]; exact hfrom.mem
+  obtain ⟨_, hin, _, ctx, first, last, anns, c1, _, c3, c4, _, _, c7, c8, c9, c10⟩ :=
+    C14_entry_text path t es[i] hmem _ he'
+  have hanns := c9 (by simp)
+  simp only [BkSpans.tracked, List.map_cons, List.map_nil] at hanns
+  subst hanns
+  refine ⟨es[i], tt, tt.posts[a], tt.posts[b], ctx, hxi, htt, hab, hpa, hpb, c1, by rw [c4]; exact c3, c7, ?_⟩
+  intro r hr
+  obtain ⟨w1, w2, w3⟩ := hin r (by simpa [BkSpans.tracked] using hr)
+  dsimp only at w1 w2 w3
+  refine ⟨w1, w2, w3, ?_⟩
+  have hmemr : (⟨r.start - es[i].start, r.stop - es[i].start⟩ : Range) ∈
+      [(⟨(tt.posts[a].span.range (utf8Len t)).start - es[i].start, (tt.posts[a].span.range (utf8Len t)).stop - es[i].start⟩ : Range),
+       ⟨(tt.posts[b].span.range (utf8Len t)).start - es[i].start, (tt.posts[b].span.range (utf8Len t)).stop - es[i].start⟩] := by
+    simp only [List.mem_cons, List.not_mem_nil, or_false] at hr ⊢
+    rcases hr with rfl | rfl
+    · exact .inl rfl
+    · exact .inr rfl
+  have := (c10 _ hmemr (r.start - es[i].start) (Nat.le_refl _) (by simp only; omega)).1
+  rw [show es[i].start + (r.start - es[i].start) = r.start by omega] at this
+  exact this
+
 /-! ### non-vacuity -/
 
 /-- two entries after a comment and blank lines, CRLF and multi-byte text; the second transaction has a posting that
 cannot be parsed (`==`) -/
 def badText : List Char := "; 日本語\r\n\r\n2024/01/01 x\r\n  A  1 USD\r\n  B\r\n\r\n2024/01/02 y\r\n  C  1 USD ==\r\n".toList
 
--- `C14_syntax_text`'s hypothesis is satisfiable; the error is reported at line 6 (the line after the first transaction,
--- where the iterator resumed), the bad entry starts on line 7 and the error is on line 8
+-- `C14_syntax_text`'s hypothesis is satisfiable: `line_start` is 6 (the blank line after the first transaction, where the
+-- iterator resumed), the bad entry starts on line 7, the error (the `=` at offset 27 from the checkpoint) is on line 8
 example : (Parse.parseLedger badText).isErr = true := by decide +kernel
 example : (match Parse.parseLedger badText with | .err e => some (e.lineStart, e.offset, e.spanEnd) | _ => none)
-    = some (5, 31, 32) := by decide +kernel
+    = some (6, 27, 28) := by decide +kernel
 
 /-- a transaction with every kind of tracked item, after a comment -/
 def goodText : List Char := "; é\n\n2024/01/01 x\n  A  1 USD {2 EUR} @ 3 JPY = 4 USD\n  B\n".toList
 
--- `C14_entry_text`'s hypotheses are satisfiable: the parser delivers the transaction with span 5..56 and seven tracked
+-- `C14_entry_text`'s hypotheses are satisfiable: the parser delivers the transaction with span 6..58 and eight tracked
 -- spans (account, amount, cost, lot price, balance, posting; account, posting)
 example : (ParseSpans.parseLedgerRunT goodText).1.map (fun x => (x.start, x.stop, x.trackedRanges (utf8Len goodText)))
-    = [(0, 4, []), (5, 56, [(20, 21), (23, 28), (37, 42), (29, 36), (43, 50), (20, 51), (53, 54), (53, 55)])] := by
+    = [(0, 5, []), (6, 58, [(21, 22), (24, 29), (38, 45), (30, 37), (46, 53), (21, 54), (56, 57), (56, 58)])] := by
   decide +kernel
+
+-- ... and the plain decoration delivers the same two entry spans (`C14_entry_text_plain`, `C14_file_text`)
+example : (Parse.parseLedgerRun goodText).1.map (fun x => (x.start, x.stop)) = [(0, 5), (6, 58)] := by decide +kernel
+
+-- `SpansFrom` (hypothesis of `C14_entry_text_txn`) is inhabited by every error kind that carries spans; here the two
+-- postings of a transaction of a 20-byte file for `UndeduciblePostingAmount(0, 1)`, and the cost of posting 0
+def zeroAmt : VExpr := .amt ⟨false, 0, 0, none⟩ ""
+def postA : ParseSpans.Tracked ParseSpans.TPosting :=
+  ⟨{ account := ⟨"A", ⟨9, 8⟩⟩,
+     amount := some { amount := ⟨zeroAmt, ⟨7, 6⟩⟩, cost := some ⟨.rate zeroAmt, ⟨5, 2⟩⟩ } }, ⟨9, 1⟩⟩
+def postB : ParseSpans.Tracked ParseSpans.TPosting := ⟨{ account := ⟨"B", ⟨1, 0⟩⟩ }, ⟨1, 0⟩⟩
+example : ParseSpans.SpansFrom 20 { date := ⟨2024, 1, 1⟩, posts := [postA, postB] } (.undeducible ⟨11, 19⟩ ⟨19, 20⟩) :=
+  .undeducible 0 1 postA postB rfl rfl
+example : ParseSpans.SpansFrom 20 { date := ⟨2024, 1, 1⟩, posts := [postA, postB] } (.zeroAmountWithExchange ⟨15, 18⟩) :=
+  .zeroAmountWithExchange 0 postA _ ⟨.rate zeroAmt, ⟨5, 2⟩⟩ rfl rfl (.inl rfl)
+-- `C14_undeducible_text`'s hypotheses are satisfiable: the second entry has two postings without amount (with a
+-- metadata line between them); the parser accepts the text and `process` rejects entry 1 with `undeducible 1 2`
+def undedText : List Char := "; c\n\n2024/01/01 x\n  A  1 USD\n  B\n  ; note\n  C\n".toList
+def undedWitness : Option (Nat × Nat × Nat) :=
+  match ParseSpans.parseLedgerT undedText with
+  | .ok es =>
+    match Okane.process (es.map fun x => x.entry.erase) with
+    | .err (i, .undeducible a b) => some (i, a, b)
+    | _ => none
+  | _ => none
+example : undedWitness = some (1, 1, 2) := by decide +kernel
+-- outside the hypothesis (a span that is not inside the entry span) `clip` does panic: see the negation witnesses above
 
 end Okane.Diag
